@@ -161,7 +161,7 @@ Proof.
   - intros i s tr s' H. discriminate.
   - intros A abort ids m h Hm Hh s tr s' H. unfold catch_exceeded in H. destruct (m s) as [[tr1 s1] o1] eqn:E1.
     destruct o1 as [a|e| |k|]; try discriminate.
-    + destruct e as [| c v b | | | |]; try discriminate.
+    + destruct e as [| c v b | | | | |]; try discriminate.
       destruct (abort || negb (existsb (Nat.eqb (si_id c)) ids)); [discriminate|].
       destruct (h s1) as [[tr2 s2] o2] eqn:E2. injection H as _ <- ->. eapply Hh. exact E2.
     + injection H as _ <-. eapply Hm. exact E1.
